@@ -1122,6 +1122,25 @@ func TestVerifC17Listener(t *testing.T) {
 			}
 		}
 
+		if firstChangePending && !expired && vf.HasKnown(vfC17KeyHugeCreatePanic) {
+			// still in the condition in which every Close panics on the unchanged tree (known): the
+			// case gets behind it with a first change that fits the usage, awaited like any other
+			r.mu.Lock()
+			nv, n := len(r.viols), r.innerOpen+r.closing+1+r.pending()
+			r.mu.Unlock()
+			if nv == 0 {
+				steered = true
+				r.setMax(n)
+				firstChangePending = false
+				r.mu.Lock()
+				ch := r.changes[len(r.changes)-1]
+				r.mu.Unlock()
+				vf.Class("listener-created-with-a-cap-above-20M: first run-time change, not below the usage, awaited")
+				if !r.waitFor(func() bool { return ch.seen }) {
+					expired, why = true, "first capacity change of a listener created with a cap above 20M (not below the usage) did not complete"
+				}
+			}
+		}
 		probeOK, probeWhy := true, ""
 		if r.sem == nil && !expired {
 			vf.Class("probe-unavailable:listener-semaphore (changes via SetMaxConnection only, capacity probed by dialling)")
